@@ -8,6 +8,8 @@ document vs Pyc.SaveM.savePrefix over the generated library order.
 Direct oracle: bytes of successive writes, deep model snapshot before/after save, survival of unmodelled document-level
 content, destination untouched on failed save, output after any failure equal to a run that never failed,
 a sink raising after k accepted bytes.
+Pretty printer: Pyc/Model/Indent.lean models collada.xmlutil.indent; Pyc/Props/C03b.lean proves that it changes XML white space only
+(content_indent) and that applying it again changes nothing (indent_idem); tie: the real indent() vs the model on random trees.
 """
 import copy
 import io
@@ -24,7 +26,8 @@ from props import c02
 
 PID = 'C03'
 TRANSLATORS = ['write_order']
-LEAN_MODULES = ['Pyc.Model.SaveMachine', 'Pyc.Model.Sync']
+LEAN_PROPS = ['Pyc.Props.C03', 'Pyc.Props.C03b']
+LEAN_MODULES = ['Pyc.Model.SaveMachine', 'Pyc.Model.Sync', 'Pyc.Model.Indent']
 META = dict(
     level_text=('Proof: Pyc/Props/C03.lean proves for the save/write machine that any number of saves equals one '
                 '(save_idem, saves_any_number, history_bytes), that unmanaged children survive (unmanaged_preserved), that a save '
@@ -64,6 +67,8 @@ UNMODELLED = [
     '<library_physics_materials xmlns="{ns}"><physics_material id="pm1"><technique_common><dynamic_friction>0.5</dynamic_friction></technique_common></physics_material></library_physics_materials>',
     '<extra xmlns="{ns}"><technique profile="MINE"><foo xmlns="urn:other" a="1">text<bar/>tail</foo></technique></extra>',
     '<library_animation_clips xmlns="{ns}"><animation_clip id="clip1" start="0" end="1"><instance_animation url="#anim1"/></animation_clip></library_animation_clips>',
+    # character data that Python's str.strip() takes for white space but XML does not (no-break space, em space), in mixed content
+    '<extra xmlns="{ns}"><technique profile="WS"><a>&#160;<b/>&#8195;</a><c>&#160;</c></technique></extra>',
     # content in the OTHER COLLADA namespace (1.4.1 elements inside a document of another namespace and the reverse)
     '<extra xmlns="{ns}"><technique profile="OTHER"><note xmlns="{other}" k="v">kept<light id="not-a-light"/>tail</note></technique></extra>',
 ]
@@ -74,7 +79,7 @@ NS15 = 'http://www.collada.org/2008/03/COLLADASchema'
 def canon(el):
     """canonical rendering of an element subtree, ignoring whitespace-only text/tails (indent() rewrites those)"""
     def t(x):
-        return (x or '').strip()
+        return (x or '').strip(' \t\r\n')      # XML white space only: a no-break space is content
     return (el.tag, sorted(el.attrib.items()), t(el.text), [(canon(c), t(c.tail)) for c in el])
 
 
@@ -278,6 +283,43 @@ def strip_scene_element(doc):
     return collada.Collada(io.BytesIO(data))
 
 
+STRINGS = ['', '', ' ', '\n  ', '\t', '\r\n', 'x', ' x ', '\u00a0', '\u2003 ', 'a\nb', '\n\u00a0\n', '0.5 1', '\x0b'.replace('\x0b', ' \t ')]
+
+
+def indent_case(rng):
+    """a random element tree with white-space, non-white-space and not-quite-white-space text and tails: (tokens, root element)"""
+    toks = []
+
+    def enc(s):
+        return '-' if not s else '.'.join(str(ord(c)) for c in s)
+
+    def mk(depth):
+        el = ET.Element('e%d' % len(toks))
+        el.text = rng.choice(STRINGS) or None if rng.random() < 0.8 else None
+        el.tail = rng.choice(STRINGS) or None if rng.random() < 0.8 else None
+        pos = len(toks)
+        toks.append(None)
+        nk = rng.choice([0, 0, 1, 2, 3]) if depth < 4 else 0
+        for _ in range(nk):
+            el.append(mk(depth + 1))
+        toks[pos] = '%s|%s|%d' % (enc(el.text or ''), enc(el.tail or ''), nk)
+        return el
+    root = mk(0)
+    return toks, root
+
+
+def indent_strings(root):
+    out = []
+
+    def walk(e):
+        out.append(e.text or '')
+        for c in e:
+            walk(c)
+        out.append(e.tail or '')
+    walk(root)
+    return ' '.join('-' if not s else '.'.join(str(ord(c)) for c in s) for s in out)
+
+
 def renamespace(doc, uri):
     """the same document as loaded from a file in another namespace"""
     import collada
@@ -444,6 +486,26 @@ def run(ctx):
             return
         reported.add(sig)
         ctx.violation('c03:' + sig, what, rep)
+    # the pretty printer against Pyc.Indent.indent (content_indent / indent_idem are theorems about that function)
+    from collada import xmlutil
+    il, iw, roots = [], [], []
+    for i in range(ctx.n(400, 10000)):
+        toks, root = indent_case(ctx.rng)
+        il.append('indent ' + ' '.join(toks))
+        before = [c for c in ET.tostring(root)]
+        xmlutil.indent(root)
+        iw.append(indent_strings(root))
+        once = ET.tostring(root)
+        xmlutil.indent(root)
+        if ET.tostring(root) != once:
+            report('F', ('indent-not-idempotent', 'indent() applied twice differs from indent() applied once on %r' % il[-1][:200]), dict(kind='indent', line=il[-1]))
+    if ctx.lean_ok:
+        for l, w, m in zip(il, iw, ctx.driver('C03b', il)):
+            ctx.count('kernel:indent')
+            if m != w:
+                ctx.violation('corr:indent', 'collada.xmlutil.indent and Pyc.Indent.indent disagree on %r: model %r, implementation %r' % (l[:200], m[:200], w[:200]),
+                              dict(kind='indent', line=l), found_input=False)
+                break
     bases = ['constructed', 'reloaded'] + c02.CORPUS
     for i in range(ctx.n(60, 2500)):
         kind = bases[i % len(bases)] if i % 3 == 2 else ('constructed' if i % 3 == 0 else 'reloaded')
